@@ -15,6 +15,7 @@ CONSTANTS
  FreshContent = "c1"
  Want = {"ALL"}
  ArgLists <- MCArgLists
+ InitEvents <- MCInitEvents
  Cmds <- MCCmds
 CONSTRAINT MCLevel
 PROPERTY StepOK
